@@ -342,4 +342,33 @@ Proof. intros OU OV. unfold frob2, svd_tail.
     rewrite (bsum_ext rank _ (fun k' => (if Nat.eqb k k' then k1 else k0) * (tail_ind keep k * tail_ind keep k' * (s k * cj (s k'))))).
     + rewrite bsum_delta by exact Hk. rewrite <- tail_ind_idem at 3. ring.
     + intros k' Hk'. rewrite OU, OV by assumption. destruct (Nat.eqb k k'); ring. Qed.
+
+(* ---- measuring in another local basis (C12): the site tensor is rotated on its physical index by a matrix with orthonormal columns;
+   the rotated site is again right-isometric, so the outcome weights of the rotated basis again add up to the incoming weight ---- *)
+Definition rotate (u : nat -> nat -> K) (s : site) : site :=
+  {| d := d s; chiL := chiL s; chiR := chiR s; A := fun p l r => bsum (d s) (fun q => u p q * A s q l r) |}.
+Theorem rotate_right_iso u s :
+  (forall q q', q < d s -> q' < d s -> bsum (d s) (fun p => u p q * cj (u p q')) = if Nat.eqb q q' then k1 else k0) ->
+  right_iso s -> right_iso (rotate u s).
+Proof. intros Un Iso l l' Hl Hl'. unfold rotate. cbn [d chiL chiR A] in *.
+  transitivity (bsum (d s) (fun q => bsum (d s) (fun q' => bsum (chiR s) (fun r => A s q l r * cj (A s q' l' r)) * bsum (d s) (fun p => u p q * cj (u p q'))))).
+  - transitivity (bsum (d s) (fun p => bsum (chiR s) (fun r => bsum (d s) (fun q => bsum (d s) (fun q' =>
+        (A s q l r * cj (A s q' l' r)) * (u p q * cj (u p q'))))))).
+    + apply bsum_ext; intros p _. apply bsum_ext; intros r _. rewrite cj_bsum. rewrite <- bsum_mul_r. apply bsum_ext; intros q _.
+      rewrite <- bsum_mul_l. apply bsum_ext; intros q' _. rewrite cj_mul. ring.
+    + rewrite (bsum_ext (d s) _ (fun p => bsum (d s) (fun q => bsum (d s) (fun q' => bsum (chiR s) (fun r =>
+        (A s q l r * cj (A s q' l' r)) * (u p q * cj (u p q'))))))).
+      * rewrite bsum_swap. apply bsum_ext; intros q _. rewrite bsum_swap. apply bsum_ext; intros q' _.
+        rewrite (bsum_ext (d s) _ (fun p => bsum (chiR s) (fun r => A s q l r * cj (A s q' l' r)) * (u p q * cj (u p q'))))
+          by (intros p _; rewrite <- bsum_mul_r; reflexivity).
+        rewrite bsum_mul_l. reflexivity.
+      * intros p _. rewrite bsum_swap. apply bsum_ext; intros q _. rewrite bsum_swap. reflexivity.
+  - rewrite <- (Iso l l' Hl Hl'). apply bsum_ext; intros q Hq.
+    rewrite (bsum_ext (d s) _ (fun q' => (if Nat.eqb q q' then k1 else k0) * bsum (chiR s) (fun r => A s q l r * cj (A s q' l' r)))).
+    + apply bsum_delta. exact Hq.
+    + intros q' Hq'. rewrite Un by assumption. ring. Qed.
+Corollary rotated_outcome_weights_sum u s v :
+  (forall q q', q < d s -> q' < d s -> bsum (d s) (fun p => u p q * cj (u p q')) = if Nat.eqb q q' then k1 else k0) ->
+  right_iso s -> bsum (d s) (fun p => nrm2 (chiR s) (step v (rotate u s) p)) = nrm2 (chiL s) v.
+Proof. intros Un Iso. exact (outcome_weights_sum v (rotate u s) (rotate_right_iso u s Un Iso)). Qed.
 End TT.
